@@ -12,6 +12,9 @@ use std::collections::BTreeMap;
 use std::sync::atomic::{AtomicBool, AtomicU64, Ordering};
 use std::sync::Mutex;
 
+/// set in the crash-locating re-run (`VERIF_FLUSH`): every leaf history is announced operation by operation
+static FLUSH_LEAVES: AtomicBool = AtomicBool::new(false);
+
 #[derive(Clone, Copy, Debug, PartialEq, Eq)]
 enum A {
     Ins(i64),       // map / set: insert key (value chosen from the step index)
@@ -65,6 +68,14 @@ fn s(v: Option<i64>) -> String { match v { Some(x) => x.to_string(), None => "no
 
 /// run one history on a fresh instance; `Some((index, expected, observed))` at the first wrong answer.
 /// `ops_out` receives the text operations actually applied (for the replay through the Runner).
+fn run_history_announced(coll: &str, cap: usize, hist: &[A], ops: &mut Vec<(Op, Option<i64>)>) {
+    ANNOUNCE.with(|a| a.set(true));
+    let _ = run_history(coll, cap, hist, Some(ops));
+    ANNOUNCE.with(|a| a.set(false));
+}
+
+thread_local! { static ANNOUNCE: std::cell::Cell<bool> = std::cell::Cell::new(false); }
+
 fn run_history(coll: &str, cap: usize, hist: &[A], ops_out: Option<&mut Vec<(Op, Option<i64>)>>) -> Option<(usize, String, String)> {
     let expiring = coll == "key" || coll == "klist";
     let mut c = make(coll, cap, 1);
@@ -74,6 +85,7 @@ fn run_history(coll: &str, cap: usize, hist: &[A], ops_out: Option<&mut Vec<(Op,
     for (i, a) in hist.iter().enumerate() {
         let val = 100 * (i as i64 + 1);
         let mut chk = |op: Op, ek: Option<i64>, c: &mut Box<dyn Coll>, rec: &mut Vec<(Op, Option<i64>)>, expect: Option<String>| -> String {
+            if ANNOUNCE.with(|a| a.get()) { eprintln!("@op {}", op.text()); }
             let o = c.apply(&op);
             rec.push((op, ek));
             if let Some(e) = expect { if e != o && bad.is_none() { bad = Some((i, e, o.clone())); } }
@@ -149,6 +161,15 @@ fn dfs(coll: &str, cap: usize, alpha: &[A], hist: &mut Vec<A>, keys: &mut BTreeM
     if hist.len() == depth {
         count.fetch_add(1, Ordering::Relaxed);
         progress();
+        if FLUSH_LEAVES.load(Ordering::Relaxed) {
+            // crash-locating re-run: announce the history before running it (an abort of the real code is not
+            // catchable). The operations are reproduced on a scratch instance of the *reference* only.
+            eprintln!("@new hexh-{} {} 1 {}", coll, coll, cap);
+            eprintln!("# hexh {}", hist.iter().map(|a| format!("{:?}", a)).collect::<Vec<_>>().join(" "));
+            let mut ops = Vec::new();
+            let _ = std::panic::catch_unwind(std::panic::AssertUnwindSafe(|| run_history_announced(coll, cap, hist, &mut ops)));
+            return;
+        }
         let res = std::panic::catch_unwind(|| run_history(coll, cap, hist, None));
         let failed = match res { Ok(None) => false, _ => true };
         if failed {
@@ -187,6 +208,21 @@ pub fn history_exhaustive(out: &mut Out, coll: &str, keys: i64, depth: usize, ca
     let count = AtomicU64::new(0);
     let found: Mutex<Option<Vec<A>>> = Mutex::new(None);
     let expiring = coll == "key" || coll == "klist";
+    let dir = out.dir.clone();
+    let tag = format!("hexh-{}{}", coll, if extended { "x" } else { "" });
+    let flush_mode = std::env::var("VERIF_FLUSH").is_ok();
+    // crash-locating re-run: only the work items the threads of the first run were in when the process died
+    let mut only: Vec<(usize, usize)> = Vec::new();
+    if flush_mode {
+        for th in 0..16 {
+            if let Ok(txt) = std::fs::read_to_string(format!("{}/{}-{}.cur", dir, tag, th)) {
+                let v: Vec<usize> = txt.split_whitespace().filter_map(|x| x.parse().ok()).collect();
+                if v.len() == 2 { only.push((v[0], v[1])); }
+            }
+        }
+        if only.is_empty() { return (0, false); }
+        FLUSH_LEAVES.store(true, Ordering::Relaxed);
+    }
     for d in 1..=depth {
         let stop = AtomicBool::new(false);
         // parallel over the first two operations
@@ -198,12 +234,15 @@ pub fn history_exhaustive(out: &mut Out, coll: &str, keys: i64, depth: usize, ca
         }
         let next = AtomicU64::new(0);
         std::thread::scope(|sc| {
-            for _ in 0..16 {
-                sc.spawn(|| {
+            for th in 0..(if flush_mode { 1 } else { 16 }) {
+                let (next, stop, found, count, prefixes, alpha, only, dir, tag) = (&next, &stop, &found, &count, &prefixes, &alpha, &only, &dir, &tag);
+                sc.spawn(move || {
                     silent_panics();
                     loop {
                         let i = next.fetch_add(1, Ordering::Relaxed) as usize;
                         if i >= prefixes.len() || stop.load(Ordering::Relaxed) { break; }
+                        if flush_mode { if !only.contains(&(d, i)) { continue; } }
+                        else { let _ = std::fs::write(format!("{}/{}-{}.cur", dir, tag, th), format!("{} {}", d, i)); }
                         let p = &prefixes[i];
                         // replay the prefix on the key bookkeeping, rejecting out-of-contract prefixes
                         let mut ks: BTreeMap<i64, i64> = BTreeMap::new();
@@ -225,13 +264,15 @@ pub fn history_exhaustive(out: &mut Out, coll: &str, keys: i64, depth: usize, ca
                         }
                         if !ok || h.len() > d { continue; }
                         if h.len() == d && !matches!(h[d - 1], A::Get(_) | A::KGet(_) | A::Pred(_) | A::Walk | A::KFle(_) | A::KFl(_)) { continue; }
-                        dfs(coll, cap, &alpha, &mut h, &mut ks, t, d, &found, &stop, &count);
+                        dfs(coll, cap, alpha, &mut h, &mut ks, t, d, found, stop, count);
                     }
                 });
             }
         });
         if found.lock().unwrap().is_some() { break; }
     }
+    if flush_mode { FLUSH_LEAVES.store(false, Ordering::Relaxed); return (count.load(Ordering::Relaxed), false); }
+    for th in 0..16 { let _ = std::fs::remove_file(format!("{}/{}-{}.cur", dir, tag, th)); }
     let n = count.load(Ordering::Relaxed);
     let f = found.lock().unwrap().clone();
     if let Some(h) = f {
